@@ -190,6 +190,94 @@ def h_refit2(mods, stage_mode):
     return h
 
 
+def frame_locals(exc, funcname):
+    tb = exc.__traceback__
+    found = None
+    while tb is not None:
+        if tb.tb_frame.f_code.co_name == funcname:
+            found = tb.tb_frame.f_locals
+        tb = tb.tb_next
+    return found
+
+
+def h_pairing(mods):
+    """two sources in one island, each symbolically on or off the image: the list that is later zipped with the fitted
+    components must hold exactly the sources whose parameters were added, in that order"""
+    sf = mods['source_finder']
+
+    def h(c):
+        f = slicer.get_function(F, '_refit_islands', 'SourceFinder')
+        loops = [n for n in ast.walk(f) if isinstance(n, ast.For) and 'zip(new_src' in ast.unparse(n.iter)]
+        if not loops:
+            raise slicer.AnchorMissing('_refit_islands: copy-back loop over zip(new_src, ...) not found')
+        paired = ast.unparse(loops[0].iter).split('zip(new_src,')[1].strip(' )')
+        holder = {}
+
+        class M(r2c.Model):
+            def __init__(self):
+                r2c.Model.__init__(self)
+                holder['params'] = self
+        sf.lmfit = type('LM', (), {'Parameters': M})
+        sf.Beam = Beamish
+        sf.FWHM2CC = 0.42466
+        H, W = 40, 50
+        finder = sf.SourceFinder(log=loader.NullLog())
+        gd = finder.global_data
+        gd.img = FakeImage((H, W))
+        gd.rmsimg = FakeImage((H, W))
+        pos = {}
+
+        class Src:
+            def __init__(self, k):
+                self.k = k
+                self.ra, self.dec = ('ra', k), ('dec', k)
+                self.a, self.b, self.pa = 30.0, 20.0, 0.0
+                self.peak_flux = real('peak%d' % k)
+                self.island, self.source, self.flags, self.uuid = 3, k, 0, 'u%d' % k
+                pos[('ra', k)] = (real('row%d' % k), real('col%d' % k))
+        srcs = [Src(0), Src(1)]
+        for k in range(2):
+            # keep the symbolic positions in a window around the image so that the index case split stays small
+            for v, n in zip(pos[('ra', k)], (H, W)):
+                c.assume(v.e >= -3)
+                c.assume(v.e <= n + 4)
+
+        class WH:
+            def sky2pix(self, p):
+                return list(pos[p[0]])
+
+            def sky2pix_ellipse(self, p, a, b, pa):
+                r, cc = pos[p[0]]
+                return r, cc, 3.0, 2.5, 0.0
+
+            def get_psf_sky2pix(self, ra, dec):
+                return (3.0, 2.5, 0.0)
+        gd.wcshelper = gd.psfhelper = WH()
+        c.index_range = (-6, 60)
+        loc = None
+        try:
+            finder._refit_islands([srcs], 1, None, istart=0)
+        except core.Cut as e:
+            loc = frame_locals(e, '_refit_islands')
+        tag = '_refit_islands pairing[2 sources]'
+        if loc is None:
+            # both sources rejected: nothing to pair
+            params = holder.get('params')
+            c.oblige(tag + ':no parameters were added when every source was rejected', z3.BoolVal(params is None or not any(k.endswith('_amp') for k in params)))
+            return dict(outcome='all rejected')
+        params = holder['params']
+        added = []
+        for j in range(2):
+            p = params.get('c%d_amp' % j)
+            if p is not None:
+                added.append([s for s in srcs if s.peak_flux is p.value][0].k)
+        lst = loc.get(paired)
+        got = [s.k for s in lst] if lst is not None else None
+        c.oblige(tag + ':the list paired with the fitted components holds exactly the sources whose parameters were added, in order', z3.BoolVal(got == added), info=dict(paired=paired, got=got, added=added))
+        return dict(outcome='cut', paired=paired, got=got, added=added)
+    return h
+
+
 # ------------------------------------------------------------------ K-copyback
 def h_copyback(stage):
     def h(c):
@@ -382,6 +470,33 @@ def oracle(stages=(1, 2, 3), nsrc=9, nopsf=False, ratio=None, small=False):
         shutil.rmtree(d, ignore_errors=True)
 
 
+def oracle_pairing():
+    """real priorized fit of a two-member island whose FIRST member lies off the image: the component that comes back
+    must carry the uuid (and stage-1 uncertainties) of the member that was actually measured"""
+    sfm = loader.real('source_finder')
+    d = tempfile.mkdtemp(prefix='c05p_', dir='/var/tmp')
+    try:
+        fn, truth, hdr = C03.make_field(d, 4, seed=4)
+        f = sfm.SourceFinder(log=logging.getLogger('c05'))
+        blind = sorted(f.find_sources_in_image(fn, rms=0.05, bkg=0.0, cores=1, innerclip=20, outerclip=15))
+        good = copy.deepcopy(blind[0])
+        ghost = copy.deepcopy(blind[0])
+        good.island, good.source, good.uuid, good.err_ra = 0, 1, 'measured', 0.123
+        ghost.island, ghost.source, ghost.uuid, ghost.err_ra = 0, 0, 'off-image', 0.456
+        ghost.dec = ghost.dec - 1.0          # one degree south: far off this image
+        f = sfm.SourceFinder(log=logging.getLogger('c05'))
+        pr = f.priorized_fit_islands(fn, catalogue=[ghost, good], rms=0.05, bkg=0.0, stage=1, cores=1, doregroup=False)
+        if len(pr) != 1:
+            return True, 'pairing-count', '%d components for one measurable member' % len(pr)
+        if pr[0].uuid != 'measured' or pr[0].err_ra != 0.123:
+            return True, 'uuid-of-rejected-member', 'island with an off-image first member: the measured component came back with uuid %r and err_ra %r (expected %r, 0.123)' % (pr[0].uuid, pr[0].err_ra, 'measured')
+        return False, None, None
+    except Exception as e:
+        return True, 'raises-%s' % type(e).__name__, repr(e)[:300]
+    finally:
+        shutil.rmtree(d, ignore_errors=True)
+
+
 def run(rep):
     thorough = rep.tier == 'thorough'
     mods = r2c.sym_sf()
@@ -403,6 +518,12 @@ def run(rep):
         collect(rep, res, 'K-copyback', lambda: oracle((1, 2)), dict(kind='priorized', stages=[1, 2]))
     except slicer.AnchorMissing as e:
         rep.inconc('anchor-missing %s' % e)
+    try:
+        st, res = explore(h_pairing(mods), workers=16, wall_s=600, max_paths=5000)
+        rep.stats(st)
+        collect(rep, res, 'K-copyback', lambda: oracle_pairing(), dict(kind='pairing'))
+    except slicer.AnchorMissing as e:
+        rep.inconc('anchor-missing %s' % e)
     rep.end_kernel()
     rep.kernel('K-resize-nopsf', functions=[FC + ':resize'], bounds='two sources with symbolic sizes and UNDEFINED psf columns; ratio None / 1; with and without a psf helper',
                stubs=['Beam -> record', 'psf helper -> symbolic image beam'])
@@ -422,6 +543,10 @@ def run(rep):
     rep.end_kernel()
     rep.kernel('K-replay-oracle', functions=[F + ':SourceFinder.priorized_fit_islands'], bounds='noise-free 9-source field = exactly the model of the catalogue: stages 1-3, with psf columns; stage 1 without psf columns at ratio None and 1',
                assumes=['concrete executions at the level of the property statement'])
+    bad, cls, detail = oracle_pairing()
+    rep.validated_runs(1)
+    if bad:
+        rep.finding('C05/K-copyback/%s' % cls, dict(kind='pairing'), detail)
     for kw, w in ((dict(stages=(1, 2, 3)), dict(kind='priorized', stages=[1, 2, 3])), (dict(stages=(1,), small=True), dict(kind='priorized-small', stages=[1])), (dict(stages=(1,), nopsf=True), dict(kind='priorized-nopsf', ratio=None)), (dict(stages=(1,), nopsf=True, ratio=1.0), dict(kind='priorized-nopsf', ratio=1.0))):
         bad, cls, detail = oracle(**kw)
         rep.validated_runs(1)
@@ -448,7 +573,9 @@ def collect(rep, res, kname, replay_fn, wit):
 
 def replay(w):
     wit = w['witness']
-    if wit.get('kind') == 'priorized-small':
+    if wit.get('kind') == 'pairing':
+        bad, cls, detail = oracle_pairing()
+    elif wit.get('kind') == 'priorized-small':
         bad, cls, detail = oracle((1,), small=True)
     elif wit.get('kind') == 'priorized-nopsf':
         bad, cls, detail = oracle((1,), nopsf=True, ratio=wit.get('ratio'))
